@@ -181,13 +181,14 @@ type ClientSnapshot struct {
 	Waiters  int
 	Closed   bool
 	Fallback int32
+	ProbeAge time.Duration // time since the last least-time probe (c.lastTime)
 }
 
 // VerifSnapshot returns the client's private state under its lock.
 func (c *Client) VerifSnapshot() ClientSnapshot {
 	c.lock.Lock()
 	defer c.lock.Unlock()
-	s := ClientSnapshot{Pos: c.pos, Waiters: len(c.pending), Closed: c.closed != 0, Fallback: c.fallback}
+	s := ClientSnapshot{Pos: c.pos, Waiters: len(c.pending), Closed: c.closed != 0, Fallback: c.fallback, ProbeAge: time.Since(c.lastTime)}
 	for _, t := range c.targets {
 		s.Targets = append(s.Targets, TargetSnapshot{t.address, t.alive, t.latency})
 	}
